@@ -45,8 +45,8 @@ Proved here, for *arbitrary* tables (no consistency assumed beyond the stated ra
   (`Phys/NoPanicApi.lean`): `C11_api_history_never_panics` — along every API history from every such
   image no call reaches a panic exit of the allocation level.  This is the composition over
   the whole write path that the primitive lemmas above lacked — for the panic exits.  The `hang`
-  exits (fuel) are covered by `Phys/NoHang*.lean` (below) for the store machine on well-formed tables,
-  with one case missing; the directory level is not.
+  exits (fuel) are covered by `Phys/NoHang*.lean` (below) for the store machine on well-formed tables;
+  the directory level is not.
 * `C11_free_chain_terminates`, `C11_chain_write_terminates`, `C11_chain_read_terminates`,
   `C11_chain_set_len_terminates` (`Phys/NoHang.lean`): the loops of alloc.rs/chain.rs that have no
   bound in the Rust never use up the model's fuel — `free_chain` on *any* FAT (each round turns a
@@ -59,7 +59,7 @@ Proved here, for *arbitrary* tables (no consistency assumed beyond the stated ra
   operation on a stream that lives in a regular chain hangs, in any reachable state, with any
   arguments.
 * **`C11_store_ops_never_hang_partial`** (`Phys/NoHangMini.lean`): the mini level as well — every store
-  operation in every reachable state, except the migration of a regular chain into the mini stream.
+  operation in every reachable state.
 * `C11_mini_pop_safe_reachable`, `C11_reuse_safe_reachable`: both range conditions hold in *every*
   state the API model reaches from a fresh file (`miniRange_reachable`, `inv_reachable`: induction
   over all histories), so on well-formed files these two unchecked indexings can never fail.
@@ -343,37 +343,36 @@ example : WritesInRange ({ p := Phys.create false, L := fun _ => 0 } : G) [] ∧
   decide
 
 
-/-- **the store machine never hangs, partial**: in every state that store operations and reopens reach from
-a fresh file, every store operation — `allocate_dir_entry`'s chain growth, creating a stream,
-`write_data_to_stream`, `resize_stream`, `remove_stream`'s release, `open`'s cache rebuild, with any
-arguments — returns a value or an error and not one of the model's `hang` exits, provided the file has
-room inside the format's range of sector numbers for what the operation may add (`opCost`: six FAT
-cells per byte written is a crude bound; a 2 TB file is where it bites).  *Partial*: one case of the
-full statement is missing — `IntoMini`, shrinking a stream of at least 4096 bytes to a non-zero length
-below 4096 (it frees a regular chain and then allocates in the mini stream: "the two container chains
-stay walkable" across `free_chain` is not proved) — and the statement is about the store machine, not
-about the API level built on it (`Phys/NoHangMini.lean`, 1 200 lines: the invariant `MW` — both
-container chains can be walked, are disjoint and keep clear of a duplicate-free free list of FREE
-cells — is kept by every allocation; `free_mini_chain` terminates by the same counting argument as
-`free_chain`). -/
+/-- **the store machine never hangs** (partial with respect to the property, see below): in every state that
+store operations and reopens reach from a fresh file, every store operation — `allocate_dir_entry`'s
+chain growth, creating a stream, `write_data_to_stream`, `resize_stream` in all its eight cases,
+`remove_stream`'s release, `open`'s cache rebuild, with any arguments — returns a value or an error and
+not one of the model's `hang` exits, provided the file has room inside the format's range of sector
+numbers for what the operation may add (`opCost`: six FAT cells per byte written, 25 200 cells for a
+resize — crude bounds; a file of 2 TB is where they bite).  *Partial* because the property speaks of API
+calls on every accepted file: this is the store machine under the API level (`Phys/NoHangMini.lean`,
+1 300 lines: the invariant `MW` — both container chains can be walked, are disjoint and keep clear of a
+duplicate-free free list of FREE cells — is kept by every allocation and re-established after
+`free_chain` from "no sharing, no leak"; `free_mini_chain` terminates by the same counting argument
+as `free_chain`), and the states are the well-formed ones. -/
 theorem C11_store_ops_never_hang_partial (v4 : Bool) (ops : List GOp) (op : GOp) :
     let g0 : G := { p := Phys.create v4, L := fun _ => 0 }
     WritesInRange g0 ops → MiniBounded g0 ops →
     let g := grun g0 ops
-    ¬ IntoMini g op → g.p.fat.size + 6 * opCost op ≤ MAXREG + 1 → NH (gstep g op) :=
+    g.p.fat.size + 6 * opCost op ≤ MAXREG + 1 → NH (gstep g op) :=
   store_ops_never_hang v4 ops op
 
-/-- the premises are met on a fresh file by any write of a buffer that is not astronomically long (and the
-excluded case is a real case) -/
-example (bs : Bytes) (h : bs.length ≤ 1000000) : ¬ IntoMini ({ p := Phys.create false, L := fun _ => 0 } : G) (.write 1 0 bs) ∧
-    (Phys.create false).fat.size + 6 * opCost (.write 1 0 bs) ≤ MAXREG + 1 := by
-  refine ⟨fun h => h, ?_⟩
-  show (Phys.create false).fat.size + 6 * (bs.length + 2) ≤ MAXREG + 1
+/-- the premise is met on a fresh file by any write of a buffer that is not astronomically long, and by any resize -/
+example (bs : Bytes) (h : bs.length ≤ 1000000) :
+    (Phys.create false).fat.size + 6 * opCost (.write 1 0 bs) ≤ MAXREG + 1 ∧
+    (Phys.create false).fat.size + 6 * opCost (.resize 1 100) ≤ MAXREG + 1 := by
   have h1 : (Phys.create false).fat.size = 2 := rfl
   have h2 : MAXREG = 4294967290 := by decide
-  omega
-example : IntoMini ({ p := Phys.create false, L := fun _ => 5000 } : G) (.resize 1 100) := by
-  refine ⟨?_, by decide, ?_⟩ <;> decide
+  constructor
+  · show (Phys.create false).fat.size + 6 * (bs.length + 2) ≤ MAXREG + 1
+    omega
+  · show (Phys.create false).fat.size + 6 * 4200 ≤ MAXREG + 1
+    omega
 
 /-- the premise is met by a damaged state — the MiniFAT chain cut under the in-memory MiniFAT (F20) —
 and the operation that used to trip the assertion is answered with an error -/
